@@ -1,5 +1,5 @@
 SPECIFICATION Spec
-CONSTANTS PairSrc = "all" CtxU = "ops3" MaxFlow = 3 KeyU = "five"
+CONSTANTS PairSrc = "all" CtxU = "ops3" MaxFlow = 3 KeyU = "five" Writ = "all"
 INVARIANT IsPartition
 INVARIANT SnapshotsRight
 PROPERTY ResetEmpties
@@ -7,6 +7,7 @@ INVARIANT PartitionExact
 INVARIANT OrderPreserved
 INVARIANT NoEmptyGroup
 INVARIANT OwnerIsLongest
+INVARIANT WritingIrrelevant
 PROPERTY Stable
 INVARIANT DefaultsOneGroup
 INVARIANT WholeContext
